@@ -133,3 +133,110 @@ def c01_r2(ctx):
         ctx.inst('reads global_id|' + k, {'function': k, 'reads': v})
     if len(readers) < 3:
         raise Inconclusive('fewer than 3 readers of global_id found')
+
+
+@rule('C02', 'R6', 'link plumbing: mux/demux loops forward every received message with its own endpoint; NetworkSender pairs the message with its own endpoint; NetworkMessage keeps element order')
+def c02_r6(ctx):
+    facts = ctx.facts
+    # ---- mux thread: remote_send(message, dest) with both taken from the same received tuple, unconditionally, in the loop
+    mx = facts.one(r'network::sync::multiplexer::mux_thread$')
+    sm = q.sym(facts, mx)
+    rs = [(bi, t) for bi, t in mx.calls() if (t['callee'].get('path') or '').endswith('remote::remote_send')]
+    if len(rs) != 1:
+        raise AnchorMissing('mux_thread must call remote_send exactly once (found %d)' % len(rs))
+    bi, t = rs[0]
+    msg, dest = render(strip(sm.operand(t['args'][0]))), render(strip(sm.operand(t['args'][1])))
+    ctx.inst('mux_thread|remote_send', {'message': msg[-60:], 'dest': dest[-60:]})
+    if not (msg.endswith('as Ok).0.1') and dest.endswith('as Ok).0.0') and msg[:-1] == dest[:-1]):
+        ctx.viol('%s|pairing' % mx.path, t['at'],
+                 'mux_thread does not send the received message together with the endpoint it was queued for (message=%s, dest=%s)' % (msg[-50:], dest[-50:]), None)
+    dnf = q.cond_of_block(facts, mx, bi)
+    extra = [a for c in dnf for a in c if not (a[0] == 'is' and a[2] == 'Ok')]
+    if extra or not any(bi in mx.reachable_from(s) for s in mx.succ(bi)):
+        ctx.viol('%s|conditional-forward' % mx.path, t['at'], 'mux_thread forwards a queued message only under %s / not in its receive loop' % extra, None)
+    fl = [(b2, t2) for b2, t2 in mx.calls() if (t2['callee'].get('path') or '') == 'std::io::Write::flush']
+    if not fl or not all(mx.dominates(fl[0][0], r) for r in mx.return_blocks()):
+        ctx.viol('%s|no-final-flush' % mx.path, mx.at, 'mux_thread can finish without flushing the socket: the last messages of a link could be lost', None)
+    # ---- demux thread
+    dm = facts.one(r'network::sync::demultiplexer::demux_thread$')
+    sd = q.sym(facts, dm)
+    snd = [(bi, t) for bi, t in dm.calls() if (t['callee'].get('path') or '').endswith('channel::Sender::<T>::send')]
+    if len(snd) != 1:
+        raise AnchorMissing('demux_thread must forward with exactly one Sender::send (found %d)' % len(snd))
+    bi, t = snd[0]
+    recv_ = render(strip(sd.operand(t['args'][0])))
+    msg = render(strip(sd.operand(t['args'][1])))
+    ctx.inst('demux_thread|send', {'sender looked up by': recv_[-90:], 'message': msg[-60:]})
+    if not (msg.endswith('as Some).0.1') and 'as Some).0.0' in recv_ and 'remote_recv' in msg and 'remote_recv' in recv_):
+        ctx.viol('%s|pairing' % dm.path, t['at'],
+                 'demux_thread does not deliver the received message to the sender registered for the endpoint decoded with it', None)
+    dnf = q.cond_of_block(facts, dm, bi)
+    extra = [a for c in dnf for a in c if not (a[0] == 'is' and a[2] == 'Some')]
+    if extra or not any(bi in dm.reachable_from(s) for s in dm.succ(bi)):
+        ctx.viol('%s|conditional-forward' % dm.path, t['at'], 'demux_thread delivers a received message only under %s / not in its receive loop' % extra, None)
+    # ---- NetworkSender::send: Mux arm pairs the message with self.receiver_endpoint, Local arm sends the message itself
+    ns = facts.fn('renoir::network::network_channel::NetworkSender::<Out>::send')
+    s3 = q.sym(facts, ns)
+    sends = [(bi, t) for bi, t in ns.calls() if (t['callee'].get('path') or '').endswith('channel::Sender::<T>::send')]
+    vals = [render(strip(s3.operand(t['args'][1]))) for _, t in sends]
+    ctx.inst('NetworkSender::send', {'sent values': vals})
+    if sorted(vals) != sorted(['(self.receiver_endpoint, message)', 'message']):
+        ctx.viol('%s|payload' % ns.path, ns.at,
+                 'NetworkSender::send must hand `message` to the local channel and `(self.receiver_endpoint, message)` to the multiplexer (found %s)' % vals, None)
+    # every path sends: no return reachable without a send
+    reach = ns.reachable_from(0, avoid=[bi for bi, _ in sends])
+    if any(ns.blocks[b]['t']['t'] == 'return' for b in reach):
+        ctx.viol('%s|drops' % ns.path, ns.at, 'NetworkSender::send has a path that returns without sending the message', None)
+    # ---- NetworkMessage: into_iter is the Vec's own iterator; NetworkDataIterator::next forwards to it
+    it = [f for f in facts.lib_fns() if f.name == 'next' and (f.impl_adt or '').endswith('network::NetworkDataIterator')]
+    if not it:
+        raise AnchorMissing('impl Iterator for NetworkDataIterator not found')
+    calls = [(t['callee'].get('path') or '') for _, t in it[0].calls()]
+    ctx.inst('NetworkDataIterator::next', {'calls': calls})
+    if calls != ['std::iter::Iterator::next']:
+        ctx.viol('%s|iteration' % it[0].path, it[0].at, 'NetworkDataIterator::next is no longer a plain forward to the Vec iterator (%s): batch order could change' % calls, None)
+    ii = [f for f in facts.lib_fns() if f.name == 'into_iter' and (f.impl_adt or '').endswith('network::NetworkMessage')]
+    for f in ii:
+        cs = [(t['callee'].get('path') or '') for _, t in f.calls()]
+        ctx.inst('NetworkMessage::into_iter', {'calls': cs})
+        bad = [c for c in cs if any(x in c for x in ('rev', 'sort', 'reverse', 'skip', 'take', 'filter', 'step_by', 'dedup'))]
+        if bad or not any(c.endswith('into_iter') for c in cs):
+            ctx.viol('%s|iteration' % f.path, f.at, 'NetworkMessage::into_iter does not iterate the batch as stored (%s)' % cs, None)
+
+
+@rule('C02', 'R7', 'channel registration: sender and receiver of a link are stored and looked up under the same ReceiverEndpoint')
+def c02_r7(ctx):
+    facts = ctx.facts
+    TOPO = 'renoir::network::topology::NetworkTopology'
+    rc = facts.method(TOPO, 'register_channel')
+    sym = q.sym(facts, rc)
+    ins = [(bi, t) for bi, t in rc.calls() if (t['callee'].get('path') or '').endswith('HashMap::<K, V, S, A>::insert') and len(t['args']) == 3]
+    keys = [render(strip(sym.operand(t['args'][1]))) for _, t in ins]
+    ctx.inst('register_channel|insert keys', {'keys': keys})
+    if len(ins) < 4 or any(k != 'receiver_endpoint' for k in keys):
+        ctx.viol('%s|key' % rc.path, rc.at, 'register_channel stores a sender/receiver under a key other than the endpoint being registered (%s)' % keys, None)
+    lc = [(bi, t) for bi, t in rc.calls() if (t['callee'].get('path') or '').endswith('local_channel')]
+    for bi, t in lc:
+        a = render(strip(sym.operand(t['args'][0])))
+        if a != 'receiver_endpoint':
+            ctx.viol('%s|channel-endpoint' % rc.path, t['at'], 'a local channel is created for `%s` instead of the endpoint being registered' % a, None)
+    for name in ('get_sender', 'get_receiver'):
+        g = facts.method(TOPO, name)
+        s2 = q.sym(facts, g)
+        looks = [(t['at'], render(strip(s2.operand(t['args'][1])))) for bi, t in g.calls()
+                 if (t['callee'].get('path') or '').rsplit('::', 1)[-1] in ('get', 'remove', 'contains_key') and len(t['args']) > 1
+                 and 'HashMap' in (t['callee'].get('path') or '')]
+        ctx.inst('%s|lookups' % name, {'keys': [k for _, k in looks]})
+        if not looks or any(k != 'receiver_endpoint' for _, k in looks):
+            ctx.viol('%s|lookup-key' % g.path, g.at, '%s looks a channel end up under a key other than the requested endpoint (%s)' % (name, [k for _, k in looks]), None)
+    gs = facts.method(TOPO, 'get_senders')
+    fam = facts.family(gs)
+    eps = []
+    for f in fam:
+        s2 = q.sym(facts, f)
+        for bi, t in f.calls():
+            if (t['callee'].get('path') or '').endswith('ReceiverEndpoint::new'):
+                eps.append((render(strip(s2.operand(t['args'][0])))[-40:], render(strip(s2.operand(t['args'][1])))[-40:]))
+    ctx.inst('get_senders|endpoints', {'ReceiverEndpoint::new args': eps})
+    if not eps or not all(b.endswith('coord.block_id') for a, b in eps):
+        ctx.viol('%s|endpoint' % gs.path, gs.at, 'get_senders builds receiver endpoints whose previous block is not the sender\'s own block (%s)' % eps, None)
